@@ -20,7 +20,7 @@ func cmdSweep(args []string) int {
 	if *dir == "/repo" {
 		name = "root"
 	}
-	m, err := loadModule(name, *dir, fs.Args())
+	m, err := loadModule(name, *dir, fs.Args(), "")
 	if err != nil {
 		fmt.Println(err)
 		return 2
